@@ -11,7 +11,7 @@ EXTENDS NcReadLoop, Json
 VARIABLES h, sb0, ss0, ok0, sb1, ss1, ok1
 hv == <<h, sb0, ss0, ok0, sb1, ss1, ok1>>
 Tok(t) == [k |-> t[1], i |-> t[2]]
-Empty == [i \in 1..N |-> <<>>]
+Empty == [i \in 0..N |-> <<>>]
 HInit == Init /\ h = <<>> /\ sb0 = <<>> /\ ss0 = Empty /\ ok0 = {} /\ sb1 = <<>> /\ ss1 = Empty /\ ok1 = {}
 Keep == UNCHANGED <<sb0, ss0, ok0, sb1, ss1, ok1>>
 Good(st) == {i \in 1..N : st[i] = M(i)}
@@ -23,13 +23,16 @@ HNext == \/ Send /\ h' = Append(h, [a |-> "send", i |-> next, toks |-> <<>>]) /\
          \/ Fetch /\ h' = Append(h, [a |-> "fetch", i |-> call, toks |-> <<>>]) /\ Keep
          \/ Timeout /\ h' = Append(h, [a |-> "timeout", i |-> call, toks |-> <<>>]) /\ Keep
          \/ \E i \in 1..N : Reply(i) /\ h' = Append(h, [a |-> "reply", i |-> i, toks |-> <<>>]) /\ Keep
+         \/ Notify /\ h' = Append(h, [a |-> "notify", i |-> nn + 1, toks |-> <<>>]) /\ Keep
          \/ \E n \in 0..Len(stream) : ReadN(n) /\ Shadow(n)
                                       /\ h' = Append(h, [a |-> "read", i |-> n, toks |-> [k \in 1..n |-> Tok(stream[k])]])
 HSpec == HInit /\ [][HNext]_<<vars, hv>>
-Terminal == next = N + 1 /\ call = 0 /\ Settled /\ \A i \in 1..N : (pol[i] # "never" => i \in owed)
+Terminal == next = N + 1 /\ call = 0 /\ Settled /\ nn = Notifs /\ \A i \in 1..N : (pol[i] # "never" => i \in owed)
 Outcome(i) == IF got[i] = TimedOut THEN "timeout" ELSE IF got[i] = M(i) THEN "ok" ELSE "other"
 Now == {i \in 1..N : pol[i] = "now"}
 Kills == (IF Now \subseteq ok0 THEN {} ELSE {"v0"}) \cup (IF Now \subseteq ok1 THEN {} ELSE {"v1"})
 Emit == Terminal => PrintT("SCN " \o ToJson([n |-> N, echo |-> Echo, pol |-> pol, h |-> h, outcome |-> [i \in 1..N |-> Outcome(i)],
-                                             kills |-> Kills]))
+                                             kills |-> Kills, notifs |-> Notifs,
+                                             nstored |-> [k \in 1..Notifs |-> \E j \in 1..Len(store[0]) : store[0][j] = NM(k)],
+                                             nfiled |-> Len(store[0])]))
 =============================================================================
